@@ -199,10 +199,12 @@ theorem exec_fstrPop : Goal sub g f wod dc .fstrPop := by
       · exact e
     pops
     split
-    · simp only [Post]
-      have sb := push_ok_inv ‹Frame.push _ _ = Res.ok _›
-      (refine ⟨_, List.mem_singleton.mpr rfl, match_of_sameBut sb _ rfl rfl rfl rfl rfl rfl, ?_⟩; fin_sb sb)
-    · simp only [Post]; exact push_cast _ _ (by room)
+    · simp only [Post]; ns_leaf
+    · split
+      · simp only [Post]
+        have sb := push_ok_inv ‹Frame.push _ _ = Res.ok _›
+        (refine ⟨_, List.mem_singleton.mpr rfl, match_of_sameBut sb _ rfl rfl rfl rfl rfl rfl, ?_⟩; fin_sb sb)
+      · simp only [Post]; exact push_cast _ _ (by room)
   · split
     · simp only [Post]
       have sb := push_ok_inv ‹Frame.push _ _ = Res.ok _›
